@@ -17,7 +17,7 @@ GEN = []
 OBLIGATIONS = ['PGA.Thermo.' + t for t in [
     'C05_ref_enthalpy', 'C05_ref_entropy', 'C05_enthalpy_integral', 'C05_entropy_integral',
     'C05_cp_at_data_points', 'C05_cp_extended', 'C05_gibbs', 'C05_order_independent',
-    'C05_incomplete_delegates', 'C05_intCp_is_extension', 'C05_intCpT_is_extension',
+    'C05_incomplete_delegates', 'C05_incomplete_consistent', 'C05_intCp_is_extension', 'C05_intCpT_is_extension',
     'F5_breaks_reference_value', 'F6_breaks_order_independence', 'exIp_good', 'exIp_hits']]
 RULE = ('cases = (correlation, evaluation temperature, property) triples. Correlations: tables of 1..16 points (equal/unequal '
         'spacing, shuffled supply order, random or constant Cp/R) x range present / absent / degenerate x the reference '
